@@ -44,3 +44,21 @@ Proof. reflexivity. Qed.
 Theorem C09_timeout_is_wall_clock : forall t w, (gen_timeout_delay t w == t)%Q.
 Proof. exact timeout_is_wall_clock. Qed.
 Print Assumptions C09_timeout_is_wall_clock.
+
+(** The status each reactor event leaves behind is the source's own decision: [gen_status_lost], [gen_status_failed],
+    [gen_status_error] and [gen_status_initial] are regenerated from VNCDoCLIFactory and build_tool on every run
+    (gen/exprs.py) - 0 only for an orderly end of a completed script, one fixed non-zero status otherwise. *)
+Theorem C09_exit_status_is_source : forall s e,
+  x_status x0 = gen_status_initial /\
+  xstep s e =
+  if x_stopped s then s
+  else match e with
+       | XConnFailed => done s gen_status_failed
+       | XCompleted => mk_x (x_status s) true (x_stopping s) (x_stopped s)
+       | XLostClean => done s (gen_status_lost true (x_completed s))
+       | XLostError => done s (gen_status_lost false (x_completed s))
+       | XTimeout => done s gen_status_error
+       | XStop => if x_stopping s then mk_x (x_status s) (x_completed s) true true else s
+       end.
+Proof. exact exit_status_is_source. Qed.
+Print Assumptions C09_exit_status_is_source.
